@@ -52,6 +52,12 @@ def judge(ctx, g, prune, o, stopping):
                           {"state": s, "reported": S.rewards[s], "value": w[s], "residual": float(res),
                            "conditioned": S.cond_as_solved()}, key=KEY_TOL)
             return True
+    if g.get("_meta", {}).get("family") == "integer":
+        # no float anywhere in the description: the solver's arithmetic is exact integer arithmetic
+        for s in states:
+            if Fr(S.rewards[s]) != w[s] or isinstance(S.rewards[s], float) and w[s] > 2 ** 53:
+                ctx.violation("exact-on-integer-games", inp, {"state": s, "reported": repr(S.rewards[s]), "value": str(w[s])})
+                return True
     pruned_any = any(len(a) != len(b) for a, b in zip(S.cond, S.xtl))
     return w[0] is not None and w[0] > 0 and (pruned_any or g.get("_meta", {}).get("family") == "slow_cycle")
 
@@ -108,6 +114,9 @@ def run(ctx, model=None):
         check_case(ctx, gen.parallel_dead_game(rng), model)
     for k in range(3 if ctx.quick() else 20):
         check_case(ctx, gen.slow_reward_game(rng), model, limit=60.0)
+    for k in range(20 if ctx.quick() else 300):
+        check_case(ctx, gen.integer_game(rng), None)
+        check_case(ctx, gen.with_huge_rewards(gen.layered_tie_game(rng)), model)
     N = 200 if ctx.quick() else 5000
     batch = []
     for k in range(N):
